@@ -116,7 +116,7 @@ impl Sub for ScoreSub {
         "score"
     }
     fn rule(&self) -> &'static str {
-        "alphabet x layout (1, 2, 4, 7, 8, 16, 32, 48, 64 columns) x boundary-biased length x sequence mode x matrix regime (library / finite / -inf / small-int) x width 1..70 (and, 1 case in 13, width 100..400 on a sequence with only 0..40 valid positions) x extra wrap x (one in four) a buffer that held another sequence, was configured, and into which the sequence is then striped by the generic / AVX2 / dispatched pipeline x row sub-range x reused buffer x sequence striped by the library or (2 in 7) built through StripedSequence::new from a hand-filled matrix with arbitrary symbols in the unused cells and 0..3 spare rows; every backend implemented for the layout (generic, sse2, avx2, dispatch forced to each arm) and every read-out path compared with a linear-sequence reference; sweep = every length 0..70 (thorough ..1100) x 4 widths x both alphabets x 16/32 columns, plus sequences of more than 65536 striped rows; non-trivial = L >= M and R >= 2 (distinct by full case)"
+        "alphabet x layout (1, 2, 4, 7, 8, 16, 32, 48, 64 columns) x boundary-biased length x sequence mode x matrix regime (library / finite / -inf / small-int) x width 1..70 (and, 1 case in 13, width 100..400 on a sequence with only 0..40 valid positions) x extra wrap x (one in four) a buffer that held another sequence, was configured, and into which the sequence is then striped by the generic / AVX2 / dispatched pipeline x row sub-range x reused buffer x sequence striped by the library or (2 in 7) built through StripedSequence::new from a hand-filled matrix with arbitrary symbols in the unused cells and 0..3 spare rows; every backend implemented for the layout (generic, sse2, avx2, dispatch forced to each arm) and every read-out path (unstripe, Index, matrix cells, Vec::from, and the iterator from either end and through nth / nth_back / last / len) compared with a linear-sequence reference; sweep = every length 0..70 (thorough ..1100) x 4 widths x both alphabets x 16/32 columns, plus sequences of more than 65536 striped rows; non-trivial = L >= M and R >= 2 (distinct by full case)"
     }
     fn cases(&self, tier: Tier) -> u64 {
         tier.pick(100_000, 3_000_000)
@@ -351,6 +351,24 @@ fn compare<A: Alphabet, C: PositiveLength>(case: &Case, p: &Prepared<A, C>, outs
             // other read-out paths
             if !same(o.full[i], v) || !same(o.full.matrix()[i % rows][i / rows], v) {
                 return Some(Failure::new(format!("{}:readout", o.name), format!("position {}: Index / matrix() disagree with unstripe()", i)));
+            }
+        }
+        // the iterator of the scores read from either end, and through the positional methods an iterator may
+        // override, yields the same values as a slice of the L-M+1 scores does
+        {
+            let flat: &[f32] = &un;
+            let fwd: Vec<f32> = o.full.iter().copied().collect();
+            let mut bwd: Vec<f32> = o.full.iter().rev().copied().collect();
+            bwd.reverse();
+            let eq = |a: &[f32], b: &[f32]| a.len() == b.len() && a.iter().zip(b.iter()).all(|(x, y)| same(*x, *y));
+            if !eq(&fwd, flat) || !eq(&bwd, flat) {
+                return Some(Failure::new(format!("{}:readout", o.name), "iter() / iter().rev() disagree with unstripe()".to_string()));
+            }
+            let k = (l + m) % (n + 1);
+            let (mut a, mut b) = (o.full.iter(), flat.iter());
+            let s = |x: Option<&f32>| x.map(|v| v.to_bits());
+            if s(a.next_back()) != s(b.next_back()) || s(a.nth(k / 2)) != s(b.nth(k / 2)) || a.len() != b.len() || a.size_hint() != b.size_hint() || s(a.nth_back(k / 3)) != s(b.nth_back(k / 3)) || a.len() != b.len() || s(a.next()) != s(b.next()) || s(a.last()) != s(b.last()) {
+                return Some(Failure::new(format!("{}:readout", o.name), format!("iter(): next_back / nth({}) / nth_back({}) / next / last over {} scores disagree with a slice iterator", k / 2, k / 3, n)));
             }
         }
         // score_into on a reused buffer == score
